@@ -513,7 +513,7 @@ fn main() {
         let mut ps: Vec<Program> = vec![];
         for total in 0..=2 {
             for b in blocks(&mut trees, total, false, false) {
-                let stride = if total < 2 { 1 } else if quick { 5 } else { 3 };
+                let stride = if total < 2 { 1 } else if quick { 5 } else { 9 };
                 let mut ix = 0;
                 while ix < b.count {
                     ps.push(b.program(ix));
